@@ -119,6 +119,25 @@ Holds(e, name) ==
     [] name = "C03_ScaleInvariant" ->
          C03_ScaleInvariant(g, bc, cf.lam, FieldOf(g, o.ghost), FieldOf(g, o.ghostS),
                             MatOf(o.Mbc), FieldOf(g, o.Rbc), MatOf(o.MbcS), FieldOf(g, o.RbcS))
+    [] name = "C03_RobinCtor"     -> C03_Robin(g, bc, FieldOf(g, o.f_ctor))
+    [] name = "C03_RobinApply"    -> C03_Robin(g, bc, FieldOf(g, o.f_apply))
+    [] name = "C03_RobinSolve"    -> C03_Robin(g, bc, FieldOf(g, o.f_solve))
+    [] name = "C03_RobinExplicit" -> C03_Robin(g, bc, FieldOf(g, o.f_explicit))
+    [] name = "C03_PeriodicCtor"     -> C03_Periodic(g, bc, FieldOf(g, o.f_ctor))
+    [] name = "C03_PeriodicApply"    -> C03_Periodic(g, bc, FieldOf(g, o.f_apply))
+    [] name = "C03_PeriodicSolve"    -> C03_Periodic(g, bc, FieldOf(g, o.f_solve))
+    [] name = "C03_PeriodicExplicit" -> C03_Periodic(g, bc, FieldOf(g, o.f_explicit))
+    [] name = "C03_InteriorKeptCtor" -> C03_InteriorKept(g, FieldOf(g, cf.phi), FieldOf(g, o.f_ctor))
+    [] name = "C03_SolveRowsSatisfied" ->
+         C03_RowsSatisfied(g, bc, MatOf(o.Mbc), FieldOf(g, o.Rbc), FieldOf(g, o.f_solve))
+    [] name = "C03_PlotProfile"   -> C03_PlotProfile(g, FieldOf(g, o.f_solve), FieldOf(g, o.profile))
+    [] name = "C01_ClosedDiffusionMid" -> C01_ClosedMatrix(g, MidVolume(g), MatOf(o.Mdiff))
+    [] name = "C01_ClosedCentralMid"   -> C01_ClosedMatrix(g, MidVolume(g), MatOf(o.Mconv))
+    [] name = "C01_ClosedUpwindMid"    -> C01_ClosedMatrix(g, MidVolume(g), MatOf(o.Mup))
+    [] name = "C01_ClosedDivergenceMid" -> C01_ClosedVector(g, MidVolume(g), FieldOf(g, o.divu))
+    [] name = "C01_PeriodicDiffusion"  -> C01_ClosedPeriodic(g, bc, V, MatOf(o.Mdiff))
+    [] name = "C01_PeriodicCentral"    -> C01_ClosedPeriodic(g, bc, V, MatOf(o.Mconv))
+    [] name = "C01_PeriodicUpwind"     -> C01_ClosedPeriodic(g, bc, V, MatOf(o.Mup))
     [] name = "C04_DiffInterior" -> InteriorRowsOnly(g, MatOf(o.Mdiff))
     [] name = "C04_ConvInterior" -> InteriorRowsOnly(g, MatOf(o.Mconv))
     [] name = "C04_UpInterior"   -> InteriorRowsOnly(g, MatOf(o.Mup))
